@@ -41,7 +41,7 @@ func refUpdateRev(st *world.State) string {
 func goalC02(st *world.State) string {
 	set := st.API.Sets["web"]
 	if set == nil {
-		return "set missing"
+		return "" // nothing to converge to
 	}
 	sel, err := metav1.LabelSelectorAsSelector(set.Spec.Selector)
 	if err != nil {
@@ -101,7 +101,7 @@ func goalC02(st *world.State) string {
 // outside the desired set that can never become Ready).
 func excuseC02(st *world.State) string {
 	set := st.API.Sets["web"]
-	if set == nil || set.Spec.PodManagementPolicy == "Parallel" {
+	if set == nil {
 		return ""
 	}
 	des := map[int]bool{}
@@ -109,13 +109,21 @@ func excuseC02(st *world.State) string {
 		des[int(d)] = true
 	}
 	dead := 0
-	for _, p := range st.API.Pods {
+	sel, _ := metav1.LabelSelectorAsSelector(set.Spec.Selector)
+	for _, n := range world.SortedKeys(st.API.Pods) {
+		p := st.API.Pods[n]
 		ord, ok := oracle.OrdinalOf(set.Name, p.Name)
 		if ok && !des[ord] && oracle.IsDead(p) {
 			dead++
 		}
+		if ok && des[ord] {
+			ref := oracle.ControllerOf(p)
+			if (ref != nil && ref.UID != set.UID) || (ref == nil && (!sel.Matches(labels.Set(p.Labels)) || p.DeletionTimestamp != nil && false)) {
+				return "a desired pod name (" + p.Name + ") is held by a pod the set cannot claim"
+			}
+		}
 	}
-	if dead >= 2 {
+	if dead >= 2 && set.Spec.PodManagementPolicy != "Parallel" {
 		return fmt.Sprintf("OrderedReady with %d Failed/Succeeded pods outside the desired set (blocked by upstream design)", dead)
 	}
 	return ""
